@@ -14,7 +14,8 @@ from typing import Dict
 from .callgraph import CallGraph
 from .core import Project, norm
 
-MUTATORS = {"popitem", "pop", "update", "append", "extend", "remove", "clear", "setdefault", "sort", "insert", "reverse", "load", "__setitem__", "__delitem__", "add", "discard"}
+NP_INPLACE_FIRST_ARG = {"copyto", "put", "place", "putmask", "fill_diagonal", "put_along_axis"}
+MUTATORS = {"__setattr__", "fill", "itemset", "setflags", "popitem", "pop", "update", "append", "extend", "remove", "clear", "setdefault", "sort", "insert", "reverse", "load", "__setitem__", "__delitem__", "add", "discard"}
 ELEM = {"values", "items", "keys", "popitem", "pop", "get", "__getitem__", "setdefault"}
 INPLACE_KW = {"out", "inplace"}
 
@@ -127,6 +128,14 @@ class _Interp:
                 for kk, p in kwt[k.arg]:
                     if kk == "S" and not (isinstance(k.value, ast.Constant)):
                         self.note(p, c, f"passed as `{k.arg}=` (written in place)")
+        if isinstance(f, ast.Name) and f.id in ("setattr", "delattr") and argt:
+            for k, p in argt[0]:
+                if k == "S":
+                    self.note(p, c, f"{f.id}() on an object of the caller")
+        if isinstance(f, ast.Attribute) and f.attr in NP_INPLACE_FIRST_ARG and argt and isinstance(f.value, ast.Name) and f.value.id in ("np", "numpy"):
+            for k, p in argt[0]:
+                if k == "S":
+                    self.note(p, c, f"numpy.{f.attr}() writes into an object of the caller")
         if isinstance(f, ast.Attribute):
             recv = self.ev(f.value)
             if f.attr in MUTATORS:
